@@ -737,6 +737,34 @@ func ruleListDuplicates(c *Ctx, rule string) {
 						idiom = "seen-map"
 					}
 				}
+				// a bit set of the elements seen so far: `seen&bit != 0` is tested and `seen |= bit` carried round the
+				// loop, with bit looked up for the element
+				if bo, ok := in.(*ssa.BinOp); ok && bo.Op == token.AND {
+					for _, pair := range [][2]ssa.Value{{bo.X, bo.Y}, {bo.Y, bo.X}} {
+						acc, isPhi := pair[0].(*ssa.Phi)
+						if !isPhi {
+							continue
+						}
+						bit := pair[1]
+						fromElem := false
+						if ex, isEx := bit.(*ssa.Extract); isEx {
+							if lk, isLk := ex.Tuple.(*ssa.Lookup); isLk && isElem(lk.Index) {
+								fromElem = true
+							}
+						}
+						if lk, isLk := bit.(*ssa.Lookup); isLk && isElem(lk.Index) {
+							fromElem = true
+						}
+						if !fromElem {
+							continue
+						}
+						for _, e := range acc.Edges {
+							if or, isOr := e.(*ssa.BinOp); isOr && or.Op == token.OR && ((or.X == ssa.Value(acc) && or.Y == bit) || (or.Y == ssa.Value(acc) && or.X == bit)) {
+								idiom = "seen bit set"
+							}
+						}
+					}
+				}
 				if bo, ok := in.(*ssa.BinOp); ok && (bo.Op == token.EQL || bo.Op == token.NEQ) && nestedLoops >= 2 {
 					if strings.HasPrefix(an.AP(bo.X), listAP+"[]") && strings.HasPrefix(an.AP(bo.Y), listAP+"[]") {
 						idiom = "nested comparison"
